@@ -207,6 +207,11 @@ def solution_single_time_step(
     )
 
     # 5. Surface runoff
+    # (the curve number adjustment only applies when it is switched on)
+    if FieldMngt.curve_number_adj:
+        curve_number_adj_pct = FieldMngt.curve_number_adj_pct
+    else:
+        curve_number_adj_pct = 0
     Runoff, Infl, NewCond.day_submerged = rainfall_partition(
         precipitation,
         NewCond.th,
@@ -214,7 +219,7 @@ def solution_single_time_step(
         FieldMngt.sr_inhb,
         FieldMngt.bunds,
         FieldMngt.z_bund,
-        FieldMngt.curve_number_adj_pct,
+        curve_number_adj_pct,
         Soil.cn,
         Soil.adj_cn,
         Soil.z_cn,
